@@ -428,6 +428,15 @@ fn run_case(stream: &str, f: &[&str]) -> String {
                 pairs_out(&vh::alias_table(sh))
             })
         }
+        "xpargs" => {
+            let args: Vec<String> = if f[1] == "[]" { vec![] } else { f[1].split(',').map(unhex).collect() };
+            hex(&vh::expand_args(&unhex(f[0]), &args))
+        }
+        "xpargtok" => {
+            let args: Vec<String> = if f[1] == "[]" { vec![] } else { f[1].split(',').map(unhex).collect() };
+            hex(&vh::expand_args_token(&unhex(f[0]), &args))
+        }
+        "argsin" => (if vh::is_args_in_token(&unhex(f[0])) { "1" } else { "0" }).to_string(),
         "globq" => match vh::glob_query(&unhex(f[0])) {
             Some(v) => if v.is_empty() { "[]".to_string() } else { v.iter().map(|x| hex(x)).collect::<Vec<_>>().join("/") },
             None => "!".to_string(),
